@@ -185,7 +185,7 @@ def validate_batches(ctx, batches, counters, tag="tr"):
     return {o: tuple(v) for o, v in out.items()}
 
 
-def harness_random(binp, nruns, first, maxc, seed_shift, special=(0, 0, 0, 0)):
+def harness_random(binp, nruns, first, maxc, seed_shift, special=(0, 0, 0, 0, 0)):
     p = run_bin(binp, ["random", str(nruns), str(first), str(maxc)] + [str(x) for x in special], timeout=1500,
                 env={"VERIF_SEED": vlib.seed() + seed_shift})
     if p.returncode != 0:
@@ -531,7 +531,10 @@ def run_inner(tier, replay):
         nbig = 2 if thorough else 1
         nvol = 3 if thorough else 1
         ndead = 4 if thorough else 1
-        outs = list(ex.map(lambda k: harness_random(binp, per, 1 + k * per, 8, k, (nchat, nbig, nvol, ndead)), range(nproc)))
+        # ... and "every client stops answering pings and resets its connection around the moment its pong timeout
+        # expires": read error and heartbeat timeout in one loop iteration still mean ONE disconnect
+        nrst = 6 if thorough else 2
+        outs = list(ex.map(lambda k: harness_random(binp, per, 1 + k * per, 8, k, (nchat, nbig, nvol, ndead, nrst)), range(nproc)))
     events = [e for evs, _ in outs for e in evs]
     runs = split_runs(events)
     stats = {}
@@ -556,6 +559,7 @@ def run_inner(tier, replay):
                  heartbeat_runs=sum(1 for x in scen if x["heartbeat"]), chatty_heartbeat_runs=sum(1 for x in scen if x.get("chatty")),
                  bigpush_late_reader_runs=sum(1 for x in scen if x.get("bigpush")),
                  volley_runs=sum(1 for x in scen if x.get("volley")),
+                 rst_at_pong_expiry_runs=sum(1 for x in scen if x.get("rstexpiry")),
                  deadwrite_runs={k: sum(1 for x in scen if x.get("deadwrite") and x.get("dead_by") == k) for k in ("rst", "fin")},
                  messages_and_close_in_one_write=sum(x.get("plans", []).__str__().count("VolleyClose") for x in scen),
                  internal_app_runs=sum(1 for x in scen if x["internal_app"]),
